@@ -186,7 +186,24 @@ def check(P: Project, R: Report) -> None:
             else:
                 known_bad = True
                 detail = f"caller-supplied str reaches the frame with literals {sorted(l[:40] for l in lits)}"
-        if kind is None and not known_bad and re.search(r"(?<![\w.])" + re.escape(msg) + r"(?![\w])", detail) and "dumps(" not in detail and "model_dump" not in detail:
+        def _only_text_operations(t: str) -> bool:
+            """the expression is built from the message by str methods, str()/repr()/format, slices and f-strings alone (a call of
+            anything else — a function taken from a table, a helper this reading did not see into — may well be a serialiser)"""
+            try:
+                n_ = ast.parse(t.replace("<", "(").replace(">", ")"), mode="eval").body
+            except SyntaxError:
+                return False
+            for c_ in ast.walk(n_):
+                if isinstance(c_, ast.Call):
+                    f_ = c_.func
+                    if isinstance(f_, ast.Attribute) and f_.attr in ("join", "splitlines", "split", "rsplit", "strip", "lstrip", "rstrip", "replace", "format", "encode", "decode", "lower", "upper", "expandtabs", "translate", "removeprefix", "removesuffix", "partition", "rpartition"):
+                        continue
+                    if isinstance(f_, ast.Name) and f_.id in ("str", "repr", "format"):
+                        continue
+                    return False
+            return True
+
+        if kind is None and not known_bad and re.search(r"(?<![\w.])" + re.escape(msg) + r"(?![\w])", detail) and "dumps(" not in detail and "model_dump" not in detail and _only_text_operations(detail):
             known_bad = True  # text made from the caller's own string by something other than a serialiser (`"".join(message.splitlines())` …)
             detail = f"caller-supplied str reaches the frame through `{detail[:70]}`"
         if kind is None and not known_bad:
